@@ -70,6 +70,24 @@ def resolve_callee(prog, f, call, local_defs=None):
     return None
 
 
+def as_receiver(callee, owner, call):
+    """The callee as seen from a `self.m()` / `cls.m()` call in `owner`: its own self is the caller's (dynamic) class, so that hook
+    methods it calls resolve to the overrides of that class (template-method pattern)."""
+    if isinstance(callee, FuncInfo) and isinstance(owner, FuncInfo) and owner.cls is not None and callee.cls is not None \
+            and callee.cls is not owner.cls and isinstance(call.func, ast.Attribute) and dotted(call.func.value) in ("self", "cls"):
+        c2 = copy.copy(callee)
+        c2.cls = owner.cls
+        return c2
+    return callee
+
+
+def with_self_class(f, cls):
+    """f analysed with `self` taken to be an instance of `cls` (a subclass that inherits f)"""
+    g = copy.copy(f)
+    g.cls = cls
+    return g
+
+
 def _return_simple(body):
     """Every return ends the function: it is the last statement of `body` or of an if/else arm in tail position."""
     def has_ret(n):
@@ -262,7 +280,7 @@ class _ExprInliner(ast.NodeTransformer):
         # the callee must not bind names itself (comprehension variables are fine)
         expr = copy.deepcopy(body[0].value)
         new = _Subst(mapping, {}).visit(expr)
-        sub_owner = callee if isinstance(callee, FuncInfo) else self.owner
+        sub_owner = as_receiver(callee, self.owner, n) if isinstance(callee, FuncInfo) else self.owner
         new = _ExprInliner(self.prog, sub_owner, {}, self.depth - 1, self.skip_names).visit(new)
         return ast.copy_location(new, n) if hasattr(new, "lineno") or True else new
 
@@ -412,7 +430,7 @@ def expand(prog, f, depth=2, local_only=False, skip_names=()):
                             else:
                                 body = _replace_returns(body, lambda v, s: [_loc(ast.Return(value=v), s)])
                         if body is not None:
-                            sub_owner = callee if isinstance(callee, FuncInfo) else owner
+                            sub_owner = as_receiver(callee, owner, call) if isinstance(callee, FuncInfo) else owner
                             out.extend(walk_block(body, sub_owner, level + 1, local_defs))
                             done = True
             if done:
